@@ -7,7 +7,7 @@ From ClapModel Require Import Parse.Cmd Parse.Build Parse.Valid Parse.Matcher Pa
 From ClapModel Require Import ParseProofs.Safe ParseProofs.Invariant ParseProofs.Totality
                               ParseProofs.ValidateTotal ParseProofs.Relations ParseProofs.TotalityMain
                               ParseProofs.Sites ParseProofs.SitesComplete ParseProofs.FlagSubClass
-                              ParseProofs.FsTotality.
+                              ParseProofs.FsTotality ParseProofs.FsTop.
 From ClapModel Require Import Errors.RenderModel Errors.RenderLink.
 From ClapModel Require Gen.ErrorCtx.
 From ClapModel Require Gen.ParseSites.
@@ -290,3 +290,60 @@ Theorem C01_flag_sub_class_satisfiable :
   /\ flag_sub_class stale_cmd = false /\ flag_sub_class hyphen_cmd = false /\ flag_sub_class hyphen2_cmd = false.
 Proof. exact flag_sub_class_examples. Qed.
 Print Assumptions C01_flag_sub_class_satisfiable.
+
+(** ---------- round 5 (A): the top-level theorems for the definition as the user wrote it ----------
+    ParseProofs/FsTop.v.  [try_get_matches_from] stores argv[0] as the program name before building; rounds 1-4
+    asked for gate and class "under every program name".  Neither reads the name: *)
+Theorem C01_valid_any_bin_name : forall c0 b, valid (c0 <| c_bin_name := b |>) = valid c0.
+Proof. exact valid_bin_name. Qed.
+Print Assumptions C01_valid_any_bin_name.
+
+Theorem C01_flag_sub_class_any_bin_name : forall c0 b, flag_sub_class (c0 <| c_bin_name := b |>) = flag_sub_class c0.
+Proof. exact flag_sub_class_bin_name. Qed.
+Print Assumptions C01_flag_sub_class_any_bin_name.
+
+(** MAIN THEOREM at the entry point: for every definition of the class that the gate accepts and EVERY argv
+    (program name included, any bytes), [try_get_matches_from] neither panics nor runs out of fuel.  Subsumes
+    [C01_no_panic_top] and [C01_no_panic_flag_subs_top] (their extra hypotheses follow from the two above). *)
+Theorem C01_no_panic_argv : forall c0 argv,
+  flag_sub_class c0 = true -> valid c0 = true ->
+  match parse_top c0 argv with OPanicked _ | OOutOfFuel => False | _ => True end.
+Proof. exact parse_top_total_fs_any_bin. Qed.
+Print Assumptions C01_no_panic_argv.
+
+(** [_build_self] neither sets nor clears IgnoreErrors: what the parser reads on the built root is what the user set
+    ([Command::ignore_errors] = the global setting; [is_set] reads local or global) *)
+Theorem C01_ignore_errors_setting_kept : forall c, is_set s_ignore_errors (build_self c) = is_set s_ignore_errors c.
+Proof. exact ignore_errors_build_self. Qed.
+Print Assumptions C01_ignore_errors_setting_kept.
+
+(** THE ERROR-IGNORING CONTRACT at the entry point, as the property states it: for every definition of the class
+    that the gate accepts and that has error-ignoring enabled, and EVERY argv, the result is matches or an error of
+    kind DisplayHelp / DisplayVersion -- never a panic, never out of fuel, never another error kind (in
+    particular not DisplayHelpOnMissingArgumentOrSubcommand, the [arg_required_else_help] error, which uses
+    stderr).  [C01_ignore_errors] (round 1) allowed panics and spoke about the built root's setting. *)
+Theorem C01_ignore_errors_top : forall c0 argv,
+  flag_sub_class c0 = true -> valid c0 = true -> is_set s_ignore_errors c0 = true ->
+  match parse_top c0 argv with
+  | OOk _ => True
+  | OErr e => e_kind e = EDisplayHelp \/ e_kind e = EDisplayVersion
+  | OPanicked _ | OOutOfFuel | OInvalidConfig => False
+  end.
+Proof. exact parse_top_ignore_errors_exact. Qed.
+Print Assumptions C01_ignore_errors_top.
+
+(** non-vacuity and sharpness: a definition with a short flag-subcommand, required options, [arg_required_else_help]
+    and [subcommand_required]; six faulty lines (nothing, unknown argument, re-read cluster with a non-UTF-8 byte,
+    -V without a version, `help` + unknown name, option without value in the child) all yield matches; `--help`
+    and `help s` still end the parse with DisplayHelp; without the setting each faulty line is an error *)
+Theorem C01_ignore_errors_top_example :
+  flag_sub_class ign_cmd = true /\ valid ign_cmd = true /\ is_set s_ignore_errors ign_cmd = true
+  /\ plain ign_cmd = false
+  /\ map (fun l => outcome_kind (parse_top ign_cmd l)) ign_lines = map (fun _ => Some None) ign_lines
+  /\ outcome_kind (parse_top ign_cmd [[112]; [45; 45; 104; 101; 108; 112]]) = Some (Some EDisplayHelp)
+  /\ outcome_kind (parse_top ign_cmd [[112]; [104; 101; 108; 112]; [115]]) = Some (Some EDisplayHelp)
+  /\ map (fun l => outcome_kind (parse_top (ign_cmd <| c_gset := settings_none |>) l)) ign_lines
+     = [Some (Some EDisplayHelpOnMissing); Some (Some EUnknownArgument); Some (Some EUnknownArgument);
+        Some (Some EUnknownArgument); Some (Some EInvalidSubcommand); Some (Some EInvalidValue)].
+Proof. exact ignore_errors_example. Qed.
+Print Assumptions C01_ignore_errors_top_example.
